@@ -28,6 +28,7 @@ type sharedStreamProcess struct {
 	batches []*DeliveryMessage
 	lock    sync.RWMutex
 	state   atomic.Uint32
+	closed  atomic.Bool // 流已被分离（连接关闭或损坏），缓存了该进程的引用需要重新解析
 }
 
 func (c *sharedStreamProcess) Initialize(rc *ResourceController, id *ProcessId) {
@@ -84,11 +85,12 @@ func (c *sharedStreamProcess) packMessage(receiver, sender, forward *ProcessId, 
 }
 
 func (c *sharedStreamProcess) IsTerminated() bool {
-	return false
+	return c.closed.Load()
 }
 
 func (c *sharedStreamProcess) Terminate(source *ProcessId) {
-	// 该进程不注册，不会由资源控制器触发
+	// 该进程不注册，不会由资源控制器触发；在流被分离时由 Shared 调用
+	c.closed.Store(true)
 }
 
 func (c *sharedStreamProcess) activation() {
@@ -142,6 +144,7 @@ func (c *sharedStreamProcess) send() {
 		}
 
 		if err := c.stream.Send(sm); err != nil {
+			c.closed.Store(true)
 			c.shared.detachStream(c.address)
 			c.shared.rc.logger().Error("ResourceController", log.Err(err))
 			c.lock.Lock()
